@@ -551,6 +551,12 @@ class OpsMixin:
                         for v in n.values:
                             if isinstance(v, ast.Name):
                                 names.add(v.id)
+                    elif isinstance(n, ast.Return) and isinstance(n.value, ast.Name):
+                        names.add(n.value.id)  # a factory / dispatch function handing out the class
+                    elif isinstance(n, (ast.List, ast.Tuple, ast.Set)) and isinstance(getattr(n, "ctx", ast.Load()), ast.Load):
+                        for v in n.elts:
+                            if isinstance(v, ast.Name) and v.id[:1].isupper() and not any(True for _ in ()):
+                                pass
             self._instantiable = names
             cache["instantiable"] = names
         return ci.name in self._instantiable
